@@ -7,7 +7,7 @@
     g_type_live, g_comm_live, g_info_live, g_file_live, g_coll_n, __CPROVER_object_whole(g_coll_kind), \
     g_io_n, __CPROVER_object_whole(g_io_kind), __CPROVER_object_whole(g_io_off), __CPROVER_object_whole(g_io_count), \
     __CPROVER_object_whole(g_io_buf), __CPROVER_object_whole(g_io_type), __CPROVER_object_whole(g_io_bytes), g_nwrites, g_io_failed, g_view_n, \
-    g_last_io_bytes
+    g_last_io_bytes, g_last_got
 
 /* harness side: arbitrary process position, one injected failure at an arbitrary data-transfer
  * call with an arbitrary non-success code and an arbitrary class out of the modelled list */
